@@ -104,7 +104,7 @@ Print Assumptions C14_reachable_inv.
 (* ---- non-vacuity: concrete answers reaching each outcome ---- *)
 Definition A0 : answers :=
   {| a_ssl := Ret false; a_exec := Raise; a_errreq := Raise; a_req := Raise; a_clen := Raise;
-     a_path := Raise; a_excreq := Ret tt; a_app := 200 |}.
+     a_path := Raise; a_excreq := Ret tt; a_app := Ret 200 |}.
 Definition with_exec (a : answers) (x : res pflags) : answers :=
   {| a_ssl := a_ssl a; a_exec := x; a_errreq := a_errreq a; a_req := a_req a; a_clen := a_clen a;
      a_path := a_path a; a_excreq := a_excreq a; a_app := a_app a |}.
@@ -112,7 +112,7 @@ Definition R11 : reqinfo := {| rver := (1, 1); is_head := false; has_host := tru
 Definition R20 : reqinfo := {| rver := (2, 0); is_head := true; has_host := true; te_chunked := false; keepalive := true |}.
 Definition Agood (ri : reqinfo) (n : Z) : answers :=
   {| a_ssl := Ret false; a_exec := Ret {| hc := true; perrno := None; mc := true |}; a_errreq := Raise;
-     a_req := Ret ri; a_clen := Ret n; a_path := Ret PCanon; a_excreq := Ret tt; a_app := 200 |}.
+     a_req := Ret ri; a_clen := Ret n; a_path := Ret PCanon; a_excreq := Ret tt; a_app := Ret 200 |}.
 
 (* unicode_escape of the request line raises: 500, close; the parser stays until the disconnect *)
 Example C14_ex_raise :
@@ -124,7 +124,7 @@ Proof. vm_compute. reflexivity. Qed.
 Example C14_ex_invalid_header :
   effs_of (read_conn false empty_conn
      {| a_ssl := Ret false; a_exec := Ret {| hc := false; perrno := Some InvalidHeader; mc := false |};
-        a_errreq := Ret ((9, 9), true); a_req := Raise; a_clen := Raise; a_path := Raise; a_excreq := Raise; a_app := 0 |})
+        a_errreq := Ret ((9, 9), true); a_req := Raise; a_clen := Raise; a_path := Raise; a_excreq := Raise; a_app := Raise |})
   = [EReject 400; EWrite 400 (1, 1) true true; EClose].
 Proof. vm_compute. reflexivity. Qed.
 Example C14_ex_505 :
@@ -137,9 +137,16 @@ Example C14_ex_request :
   read_conn false empty_conn (Agood R11 0)
   = (empty_conn, [EDispatch; EWrite 200 (1, 1) false false], [TSsl; TExec; TReq; TInt]).
 Proof. vm_compute. reflexivity. Qed.
+(* a handler of the request event raises (body processing of a lone surrogate): one 500, close *)
+Example C14_ex_app_raises :
+  effs_of (read_conn false empty_conn
+     {| a_ssl := Ret false; a_exec := Ret {| hc := true; perrno := None; mc := true |}; a_errreq := Raise;
+        a_req := Ret R11; a_clen := Ret 0%Z; a_path := Ret PCanon; a_excreq := Ret tt; a_app := Raise |})
+  = [EDispatch; EWrite 500 (1, 1) true false; EClose].
+Proof. vm_compute. reflexivity. Qed.
 Example C14_ex_tls_hello :
   read_conn false empty_conn (with_exec {| a_ssl := Ret true; a_exec := Raise; a_errreq := Raise; a_req := Raise;
-     a_clen := Raise; a_path := Raise; a_excreq := Raise; a_app := 0 |} Raise)
+     a_clen := Raise; a_path := Raise; a_excreq := Raise; a_app := Raise |} Raise)
   = (empty_conn, [EClose], [TSsl]).
 Proof. vm_compute. reflexivity. Qed.
 (* hypotheses of C14_parser_error_reported / C14_raise_answered / C14_dispatch_sound are satisfiable *)
